@@ -1,4 +1,5 @@
-(* Executable model of pedantic's @validate (fn_deco_validate.py) for functions without a var-positional parameter.
+(* Executable model of pedantic's @validate (fn_deco_validate.py).  A var-positional parameter is modelled when it is
+   spelled `*args` (s_varpos; the implementation looks for the text '*args' in str(signature)); other spellings are not.
 
    No proofs here.  The model is an interpreter over a configuration `vcfg` whose value is
    regenerated from /repo by translator/t_validate.py on every run (Gen/Validate.v):
@@ -78,6 +79,7 @@ Arguments WRaise {A} _ _.
 Section Sem.
 Variable value : Type.
 Variable is_none : value -> bool.
+Variable veq : value -> value -> bool.       (* Python's `x is a or x == a` (list membership) *)
 
 Definition vfun := value -> outcome value.
 Definition dict := list (name * value).
@@ -95,7 +97,7 @@ Record param := {
   p_flask_json : bool }.            (* isinstance(p, FlaskJsonParameter) *)
 
 Record sigparam := { sp_name : name; sp_kwonly : bool; sp_default : option value }.
-Record signature := { s_params : list sigparam; s_varkw : bool }.
+Record signature := { s_params : list sigparam; s_varkw : bool; s_varpos : bool }.   (* s_varpos: takes *args *)
 
 Record call := { c_args : list value; c_kwargs : dict }.
 
@@ -222,11 +224,13 @@ Fixpoint process (positional : bool) (xs : dict) (s : wstate) : M wstate :=
   | (k, v) :: rest => mbind (step_arg positional k v s) (process positional rest)
   end.
 
-(* signature.bind_partial of the positional arguments, for a signature without a var-positional parameter *)
+(* signature.bind_partial of the positional arguments: the named part, and what goes to *args
+   (`arguments` has the key 'args' only when that tuple is not empty) *)
 Definition pos_params : list sigparam := filter (fun sp => negb (sp_kwonly sp)) (s_params sg).
-Definition bind_partial (args : list value) : outcome dict :=
-  if Nat.ltb (List.length pos_params) (List.length args) then Raise TypeErrorC
-  else Ok (combine (map sp_name pos_params) args).
+Definition bind_partial (args : list value) : outcome (dict * list value) :=
+  if s_varpos sg then Ok (combine (map sp_name pos_params) args, skipn (List.length pos_params) args)
+  else if Nat.ltb (List.length pos_params) (List.length args) then Raise TypeErrorC
+  else Ok (combine (map sp_name pos_params) args, []).
 
 Definition sig_default (k : name) : option value :=
   match find (fun sp => Nat.eqb (sp_name sp) k) (s_params sg) with
@@ -274,6 +278,21 @@ Definition declared (k : name) : bool := existsb (fun p => Nat.eqb (p_name p) k)
 
 Definition all_flask_json : bool := forallb p_flask_json (d_params dc).
 
+(* the `k == 'args' and wants_args` branch of the positional loop: ALL positional values of the call that are not equal
+   to the value of a declared named positional (used_args, compared by ==) are zipped with the Parameters not used so
+   far, in declaration order; surplus values / Parameters are ignored by zip *)
+Definition used_args (bound : dict) : list value := map snd (filter (fun kv => declared (fst kv)) bound).
+Fixpoint zip_loop (l : list (value * param)) (s : wstate) : M wstate :=
+  match l with
+  | [] => ret s
+  | (a, p) :: rest =>
+      mbind (param_validate p a) (fun v => zip_loop rest (dset (p_name p) v (fst s), snd s ++ [p_name p]))
+  end.
+Definition zip_args (args : list value) (bound : dict) (s : wstate) : M wstate :=
+  let avail := filter (fun a => negb (existsb (fun u => veq u a) (used_args bound))) args in
+  let ps := filter (fun p => negb (mem (p_name p) (snd s))) (d_params dc) in
+  zip_loop (combine avail ps) s.
+
 Definition flask_strict (s : wstate) : M wstate :=
   if d_strict dc && w_flask_installed env then
     if all_flask_json then
@@ -291,7 +310,12 @@ Definition run_phase (c : call) (ph : phase) (s : wstate) : M wstate :=
   | PhKwargs => process false (c_kwargs c) s
   | PhPositional =>
       match bind_partial (c_args c) with
-      | Ok bound => process true bound s
+      | Ok (bound, star) =>
+          mbind (process true bound s) (fun s' =>
+            match star with
+            | [] => ret s'
+            | _ :: _ => zip_args (c_args c) bound s'
+            end)
       | Raise e => fail (elookup (wc_bind_handlers cfg) e) None
       end
   | PhUnused =>
@@ -327,7 +351,8 @@ Fixpoint take_prefix (ps : list sigparam) (r : dict) : list value * dict :=
   end.
 
 Definition as_args (r : dict) : list value * dict :=
-  if (negb (s_varkw sg) && unknown_key r && aa_arrival_on_unknown_key cfg) || negb (aa_signature_order cfg)
+  if s_varpos sg then (map snd r, [])                 (* VAR_POSITIONAL: arrival order *)
+  else if (negb (s_varkw sg) && unknown_key r && aa_arrival_on_unknown_key cfg) || negb (aa_signature_order cfg)
   then (map snd r, [])
   else take_prefix (s_params sg) r.
 
@@ -352,7 +377,7 @@ Definition conv_steps (is_async : bool) : list conv_step :=
   | KWARGS_WITHOUT_NONE => cv_kw_without_none c
   end.
 
-(* Python's binding of a call with positional values pos and keywords kws, signature without var-positional *)
+(* Python's binding of a call with positional values pos and keywords kws; surplus positionals go to *args *)
 Fixpoint fill (ps : list sigparam) (d : dict) : option dict :=
   match ps with
   | [] => Some []
@@ -364,7 +389,7 @@ Fixpoint fill (ps : list sigparam) (d : dict) : option dict :=
   end.
 
 Definition py_bind (pos : list value) (kws : dict) : outcome dict :=
-  if Nat.ltb (List.length pos_params) (List.length pos) then Raise TypeErrorC        (* too many positionals *)
+  if negb (s_varpos sg) && Nat.ltb (List.length pos_params) (List.length pos) then Raise TypeErrorC   (* too many positionals *)
   else
     let assigned := combine (map sp_name pos_params) pos in
     if existsb (fun kv => dmem (fst kv) assigned) kws then Raise TypeErrorC          (* multiple values *)
@@ -376,6 +401,7 @@ Definition py_bind (pos : list value) (kws : dict) : outcome dict :=
 
 Inductive final :=
 | FBody (b : dict)
+| FBodyStar (b : dict) (star : list value)      (* function with *args: the named binding and the tuple *)
 | FRaise (e : exn) (pn : option name)
 | FNoCall.
 
@@ -387,7 +413,7 @@ Definition run (is_async : bool) (c : call) : list jentry * final :=
       | None => (j, FNoCall)
       | Some (pos, kws) =>
           match py_bind pos kws with
-          | Ok b => (j, FBody b)
+          | Ok b => (j, if s_varpos sg then FBodyStar b (skipn (List.length pos_params) pos) else FBody b)
           | Raise e => (j, FRaise e None)
           end
       end
@@ -396,6 +422,7 @@ Definition run (is_async : bool) (c : call) : list jentry * final :=
 End Sem.
 
 Arguments FBody {value} _.
+Arguments FBodyStar {value} _ _.
 Arguments FRaise {value} _ _.
 Arguments FNoCall {value}.
 Arguments e_has {value} _.
@@ -413,6 +440,7 @@ Arguments sp_kwonly {value} _.
 Arguments sp_default {value} _.
 Arguments s_params {value} _.
 Arguments s_varkw {value} _.
+Arguments s_varpos {value} _.
 Arguments c_args {value} _.
 Arguments c_kwargs {value} _.
 Arguments d_params {value} _.
